@@ -22,6 +22,7 @@ use crate::testcase::TestCase;
 pub const BASH_EXCLUDED_VARIABLES: &[&str] = &[
     // variables from Scrut internals
     "__SCRUT_DECLARE_VARS_CMD",
+    "__SCRUT_EXIT_CODE",
     "__SCRUT_EXPORTED_VARS",
     "__SCRUT_INHERITED_VAR",
     "__SCRUT_INHERITED_VARS",
